@@ -507,3 +507,16 @@ Theorem expand_dc_errors_documented_refuted :
     expand_data_id_x u_current ex_db [] (Some ["detector"]) [("instrument", VStr "Cam")] [] [] = Err EDimensionName.
 Proof. exact expand_dc_keyerror_refuted_p. Qed.
 Print Assumptions expand_dc_errors_documented_refuted.
+
+(* ---- expandDataId(expanded DataCoordinate, **keywords): "records equal to the stored ones" is FALSE when a keyword overrides a
+        key value (finding F-C13-expand-dc-stale-carried-records): the records carried by the argument are reused for the
+        new key.  Witness: visit 5 expanded, then visit=7: the result says visit 7 with visit 5's filter; the stored visit 7 has
+        pf2, and the same values given as a mapping are refused as inconsistent ---- *)
+Theorem expand_dc_carried_records_refuted :
+  exists a d, expand_data_id_x u_current ex_db2 [] None [("instrument", VStr "Cam"); ("visit", VInt 5)] [] [] = Ok a /\
+    expand_data_id_dc_x u_current ex_db2 [] None a [("visit", VInt 7)] [] = Ok d /\
+    dc_get d "visit" = Some (VInt 7) /\ dc_get d "physical_filter" = Some (VStr "pf1") /\
+    rows ex_db2 "visit" = [mkRecord [VStr "Cam"; VInt 5] [VInt 20240101; VStr "pf1"]; mkRecord [VStr "Cam"; VInt 7] [VInt 20240101; VStr "pf2"]] /\
+    expand_data_id_x u_current ex_db2 [] None (dmapping d) [] [] = Err EInconsistent.
+Proof. exact expand_dc_carried_records_refuted_p. Qed.
+Print Assumptions expand_dc_carried_records_refuted.
